@@ -315,3 +315,120 @@ def _sign_one(R, rule, N):
                     break
     R.check(okc, rule, site + " (f) rounding", "compress receives round(re(ifft(s1)[i])) for each i, in order", whyc, key=f"sign|{N}|round")
     R.analysed.setdefault("unsupported", []).extend(S.unsupported[:5])
+
+
+# ---------------------------------------------------------------------------------------------- verify
+FELT_FFT = r"<falcon_rust::polynomial::Polynomial<falcon_rust::falcon_field::Felt> as falcon_rust::fast_fft::FastFft>"
+
+
+def clause_verify(R, rule):
+    """verify's algebra as residue classes modulo q (exact polynomial identities, no sampling):
+    the vector handed to the inverse transform is  ntt(c) - ntt(s2) * ntt(h)  coefficient by coefficient,
+    with c the hash point, s2 the decompressed signature body (through Felt::new) and h the public key;
+    the norm adds the centred representatives of the inverse transform's output and the raw s2."""
+    from fv.absint import p_sym, p_add, p_mul
+    for N in (512, 1024):
+        S = Session()
+        ctx = S.ctx
+        ctx.hooks["exact_collect_max"] = 8
+        ctx.hooks["may_panic"] = lambda inst: False
+        ctx.path_mode_fns = lambda inst: inst.local
+        usz, u32, i16, u8 = ctx.usize_ty(), S.ty("u32"), S.ty("i16"), S.ty("u8")
+        calls = []
+        ctx.res_syms = {}
+
+        def sym_int(st, name, lo, hi, ty):
+            x = ctx.mk_int(st, lo, hi, ty, taint=frozenset({name}))
+            st.res[x.vid] = p_sym(name)
+            ctx.res_syms[name] = x.vid
+            return x
+
+        def fpoly(st, lab):
+            return Ag((Sq(Ag((ctx.mk_int(st, 0, Q - 1, u32, taint=frozenset({lab})),)), ctx.const_int(st, NN, usz), {i: Ag((sym_int(st, f"{lab}[{i}]", 0, Q - 1, u32),)) for i in range(NN)}),))
+
+        def forms(st, v):
+            c = v.f[0]
+            return [st.res.get(c.head[i].f[0].vid) for i in sorted(c.head or {})]
+
+        def m_h2p(E, st, fr, bi, callee, args, dest_ty):
+            if not E.ctx.quiet:
+                calls.append(("hash_to_point", st.itv[args[1].vid] if type(args[1]) is I else None))
+            return ret1(fpoly(st, "c"), st)
+
+        def m_dec(E, st, fr, bi, callee, args, dest_ty):
+            if not E.ctx.quiet:
+                calls.append(("decompress", args[0], st.itv[args[1].vid] if type(args[1]) is I else None))
+            v = Sq(ctx.mk_int(st, -2047, 2047, i16, taint=frozenset({"s2"})), ctx.const_int(st, NN, usz), {i: sym_int(st, f"s2[{i}]", -2047, 2047, i16) for i in range(NN)})
+            return [(En({1: (v,)}), st.copy()), (En({0: ()}), st)]
+
+        def m_ntt(E, st, fr, bi, callee, args, dest_ty):
+            v = E.load(st, args[0].key, args[0].proj)
+            fm = forms(st, v)
+            base = None
+            for i, f in enumerate(fm):
+                ok = f is not None and len(f) == 1 and list(f.values()) == [1] and len(list(f)[0]) == 1 and list(f)[0][0][1] == 1
+                nm = list(f)[0][0][0] if ok else None
+                if not ok or not nm.endswith(f"[{i}]") or base not in (None, nm.rsplit("[", 1)[0]):
+                    if not E.ctx.quiet:
+                        calls.append(("ntt-error", i, f))
+                    return ret1(fpoly(st, "unknown"), st)
+                base = nm.rsplit("[", 1)[0]
+            if not E.ctx.quiet:
+                calls.append(("ntt", base))
+            return ret1(fpoly(st, "^" + base), st)
+
+        def m_intt(E, st, fr, bi, callee, args, dest_ty):
+            v = E.load(st, args[0].key, args[0].proj)
+            if not E.ctx.quiet:
+                calls.append(("intt", forms(st, v)))
+            return ret1(fpoly(st, "s1"), st)
+        def felt_op(op):
+            # contracts proved by C12 for every canonical argument: result canonical, residue class = op on the classes
+            def f(E, st, fr, bi, callee, args, dest_ty):
+                xs = [a.f[0] for a in args]
+                rs = [st.res.get(x.vid) for x in xs]
+                z = ctx.mk_int(st, 0, Q - 1, u32, taint=frozenset().union(*[st.taint.get(x.vid) or frozenset() for x in xs]))
+                if all(r is not None for r in rs):
+                    st.res[z.vid] = {"add": lambda: p_add(rs[0], rs[1]), "sub": lambda: p_add(rs[0], rs[1], -1), "mul": lambda: p_mul(rs[0], rs[1]), "neg": lambda: p_add({}, rs[0], -1)}[op]()
+                return ret1(Ag((z,)), st)
+            return f
+        FE = r"^<falcon_rust::falcon_field::Felt as std::ops::"
+        symalg.install(S, [(FELT_FFT + r"::fft$", m_ntt), (FELT_FFT + r"::ifft$", m_intt), (r"^falcon_rust::polynomial::hash_to_point$", m_h2p), (r"^falcon_rust::encoding::decompress$", m_dec),
+                           (FE + r"Add>::add$", felt_op("add")), (FE + r"Sub>::sub$", felt_op("sub")), (FE + r"Mul>::mul$", felt_op("mul")), (FE + r"Neg>::neg$", felt_op("neg"))])
+        ver = S.find(f"falcon::verify::<{N}>")
+        sums = []
+
+        def obs(evn, **kw):
+            if evn == "sum" and not ctx.quiet and kw["frame"].inst is ver:
+                stt = kw["st"]
+                sums.append((set(stt.taint.get(kw["item"].vid, set())), stt.itv[kw["n"].vid], stt.itv[kw["item"].vid]))
+        ctx.observers.append(obs)
+        st = St()
+        st.res[("dummy",)] = {}
+        m = skeleton.labelled_bytes(S, st, "m", 0, 1 << 32, "m")
+        slen = SPEC[N]["sig_bytelen"] - 41
+        sig = S.cell(st, "sig", Ag((Sq(ctx.top_int(st, u8, taint=frozenset({"salt"})), ctx.const_int(st, 40, usz)), Sq(ctx.top_int(st, u8, taint=frozenset({"s"})), ctx.const_int(st, slen, usz)))))
+        pk = S.cell(st, "pk", Ag((fpoly(st, "h"),)))
+        outs = S.run(ver, [m, sig, pk], st)
+        ctx.observers.remove(obs)
+        site = f"verify::<{N}>"
+        errs = [c for c in calls if c[0] == "ntt-error"]
+        if errs or not outs:
+            R.violation(rule, site, f"a forward transform is applied to something other than the hash point, the decoded body or the public key as they are: {errs[:1]}; outcomes {len(outs)}", key=f"verify|{N}|ntt")
+            continue
+        ntts = sorted(c[1] for c in calls if c[0] == "ntt")
+        R.check(ntts == ["c", "h", "s2"], rule, site + " transforms", "exactly the hash point, the public key and the decoded body (each coefficient through its canonical residue) are transformed", f"transformed: {ntts}", key=f"verify|{N}|ntts")
+        it = [c for c in calls if c[0] == "intt"]
+        want = [p_add(p_sym(f"^c[{e}]"), p_mul(p_sym(f"^s2[{e}]"), p_sym(f"^h[{e}]")), -1) for e in range(NN)]
+        R.check(len(it) == 1 and it[0][1] == want, rule, site + " s1", "the inverse transform is applied to ntt(c) - ntt(s2) * ntt(h), as residue classes modulo q (exact identity)",
+                f"inverse transform input: {it[0][1] if it else None}", key=f"verify|{N}|s1")
+        s1s = [s for s in sums if s[0] and all(l.startswith("s1") for l in s[0])]
+        s2s = [s for s in sums if s[0] and all(l.startswith("s2") for l in s[0])]
+        half = (Q // 2) ** 2
+        R.check(len(sums) == 2 and len(s1s) == 1 and len(s2s) == 1 and s1s[0][1] == (NN, NN) and s2s[0][1] == (NN, NN) and s1s[0][2][0] >= 0 and s1s[0][2][1] <= half and s2s[0][2][0] >= 0,
+                rule, site + " norm", f"the norm is the sum over all coefficients of (centred s1)^2 (each <= {half}) plus the sum over all coefficients of s2^2",
+                f"sums seen: {sums}", key=f"verify|{N}|norm")
+        h2p = [c for c in calls if c[0] == "hash_to_point"]
+        dc = [c for c in calls if c[0] == "decompress"]
+        R.check(len(h2p) == 1 and h2p[0][1] == (N, N) and len(dc) == 1 and dc[0][2] == (N, N), rule, site + " inputs", f"one hash_to_point(.., {N}) and one decompress(.., {N})", f"{h2p} {[c[2] for c in dc]}", key=f"verify|{N}|inputs")
+        R.analysed.setdefault("unsupported", []).extend(S.unsupported[:5])
